@@ -448,6 +448,16 @@ func (p *proxyConn) writeResponse(res *http.Response) error {
 		res.Close = true
 	}
 
+	// A response decompressed by the transport has lost its Content-Length. http.Response.Write
+	// does not apply its "no length means close" rule to such responses, so frame it here.
+	if res.Uncompressed && res.ContentLength < 0 && len(res.TransferEncoding) == 0 && !res.Close && !isHeaderOnlySpec(res) {
+		if res.ProtoAtLeast(1, 1) && req.ProtoAtLeast(1, 1) {
+			res.TransferEncoding = []string{"chunked"}
+		} else {
+			res.Close = true
+		}
+	}
+
 	if res.Close {
 		res.Header.Add("Connection", "close")
 	}
